@@ -552,6 +552,7 @@ pub fn handle(st: &mut State, line: &str) -> String {
             "SD" => crate::stream::decode_n(st, &mut t),
             "SE" => crate::stream::encode_1(st, &mut t),
             "SV" => crate::stream::serve(st, &mut t),
+            "CL" => crate::client::run(st, &mut t),
             "X" => run_decode(st, &mut t),
             "LEAFDEC" => leaf_dec(&mut t),
             "LEAFENC" => leaf_enc(&mut t),
